@@ -8,7 +8,7 @@ from vf.gen import pick_weighted
 from props import b16dag as D
 
 ID = "C51"
-THEOREMS = ["C51_table_consistent", "C51_reader_accepts", "C51_commit_data", "C51_roundtrip", "C51_roundtrip_exact", "C51_derived",
+THEOREMS = ["C51_table_consistent", "C51_reader_accepts", "C51_commit_data", "C51_lookup", "C51_roundtrip", "C51_roundtrip_exact", "C51_derived",
             "C51_time_generation_word", "C51_overflow_count_before_fix_refuted"]
 MODEL_FILES = ["CommitGraph.v"]
 MODELLED = ("plumbing/format/commitgraph: MemoryIndex.Add/HasGenerationV2, CommitData.GenerationV2Data, Encoder.Encode (prepare, "
